@@ -42,8 +42,8 @@ def _small_prefs(syms):
     native replays do not allocate gigabyte buffers for an allocation length of 2**32-1"""
     prefs = []
     for v in (syms or {}).values():
-        if isinstance(v, SInt) and v.hi is not None and v.hi > (1 << 12):
-            prefs.append(V.range_constraint(SInt(v.e, max(v.lo or 0, 0) if (v.lo or 0) >= 0 else v.lo, 1 << 12)))
+        if isinstance(v, SInt) and v.hi is not None and v.hi > (1 << 12) and v.is_bv:
+            prefs.append(z3.And(v.e <= V.bvconst(1 << 12), v.e >= V.bvconst(-(1 << 12))))
         elif isinstance(v, (V.SBuf, V.SMBuf)) and isinstance(v.n, SInt):
             prefs.append(v.n.e <= 256)
     return prefs
@@ -160,9 +160,10 @@ def verify_case(unit_name, case, prop=None, tier="quick", opts=None):
             for n, c in ctx.obligations:
                 clauses.append(("*", n, SBool(c) if isinstance(c, z3.BoolRef) else c))
             canaries = list(unit.canaries(case, a, out, X))
-            diffs = guard.diff()
+            diffs = None
+            diffs = guard.diff(written=[w[0] for w in ctx.writes])
         finally:
-            guard.restore()
+            guard.restore(diffs)
             interpreted.update(I.calls)
         return dict(syms=syms, out=out, clauses=clauses, canaries=canaries, diffs=diffs)
 
@@ -178,6 +179,10 @@ def verify_case(unit_name, case, prop=None, tier="quick", opts=None):
         return res
     res["paths"] = len(paths)
     res["interpreted"] = sorted(interpreted)
+    final = guard.diff()  # full comparison once per case: catches mutations made by native code
+    for d in final:
+        res["frame_diffs"].append(dict(path=-1, owner=d[0], attr=d[1], kind=d[2]))
+    guard.restore(final)
     rng = random.Random(opts.get("seed", 0))
     n_wit = opts.get("witnesses", 4 if tier == "quick" else 32)
     for pi, (ctx, kind, val) in enumerate(paths):
@@ -211,7 +216,7 @@ def verify_case(unit_name, case, prop=None, tier="quick", opts=None):
                 if m is None and d["backend"] == "ground":
                     m = _any_model(ctx.pc, timeout_ms, _small_prefs(rec["syms"]))
                 ob["inputs"] = _jsonable(model_inputs(decls, rec["syms"], m)) if m is not None else None
-                ob["decisions"] = [str(x)[:200] for x in ctx.decisions[:12]]
+                ob["decisions"] = [_short(x) for x in ctx.decisions[:12]]
                 res["violations"].append(ob)
             elif d["verdict"] in ("unknown", "disagree"):
                 all_proved = False
@@ -266,6 +271,15 @@ def _any_model(pc, timeout_ms, prefs=None):
     if s.check() == z3.sat:
         return _nice_model(s, prefs)
     return None
+
+
+def _short(e):
+    try:
+        if e.num_args() > 6 or any(c.num_args() > 6 for c in e.children()):
+            return "<%s with %d operands>" % (e.decl().name(), e.num_args())
+        return str(e)[:200]
+    except Exception:
+        return "?"
 
 
 def _jsonable(x):
